@@ -35,7 +35,7 @@ func init() {
 		g := parallelGroups[i]
 		register(&Rule{
 			ID: g.rule, Props: g.props, Engine: "index-domain agreement (SSA loops and append chains)",
-			Text: "parallel slices stay parallel (" + strings.Join(g.pkgs, ", ") + "): when the index of a complete range over a slice A is used to index a slice B that the same function built itself, B was built in step with A – one unconditional append per iteration of a range over A (or over the same source A was built from, in the same loop), or make(len(A)); a list built over a different domain (all requested digests vs. those that need refreshing; listing order vs. sorted order) must not be indexed with A's positions",
+			Text:  "parallel slices stay parallel (" + strings.Join(g.pkgs, ", ") + "): when the index of a complete range over a slice A is used to index a slice B that the same function built itself, B was built in step with A – one unconditional append per iteration of a range over A (or over the same source A was built from, in the same loop), or make(len(A)); a list built over a different domain (all requested digests vs. those that need refreshing; listing order vs. sorted order) must not be indexed with A's positions",
 			Floor: 1, MustExist: false, Run: func(c *Ctx) { runParallel(c, g.pkgs) },
 		})
 	}
